@@ -9,6 +9,7 @@
 mod c08;
 mod c10;
 mod c16;
+mod c20;
 mod procworld;
 mod driver;
 mod gen;
@@ -26,11 +27,12 @@ fn property(id: &str) -> Option<Box<dyn Property>> {
         "C08" => Some(Box::new(c08::C08)),
         "C10" => Some(Box::new(c10::C10)),
         "C16" => Some(Box::new(c16::C16)),
+        "C20" => Some(Box::new(c20::C20)),
         _ => None,
     }
 }
 
-const ALL: &[&str] = &["C08", "C10", "C16"];
+const ALL: &[&str] = &["C08", "C10", "C16", "C20"];
 
 fn main() {
     c08::install_quiet_panic_hook();
